@@ -688,6 +688,7 @@ LAYOUT_BAD = '''def f(n: int) -> int:
 def layout_variants(b):
     def reindent(unit):
         return "\n".join((unit * ((len(l) - len(l.lstrip(" "))) // 4) + l.lstrip(" ")) for l in b.split("\n"))
+    br = b.replace("def f(n: int) -> int:", "def f(\n        n: int\n) -> int:").replace("List[int]", "List[\n  int\n    ]").replace('join(sep, ["a", "b"], {"k": f"{sep}!"})', 'join(sep,\n ["a",\n"b"\n  ], {"k":\n f"{sep}!"\n}\n)')
     return {
         "base": b,
         "two_spaces": reindent("  "),
@@ -699,7 +700,10 @@ def layout_variants(b):
         "trailing_spaces": "\n".join((l + "  " if l.strip() else l) for l in b.split("\n")),
         "blank_lines": b.replace("        return n\n", "        return n\n\n"),
         "comments": b.replace("    if n > 0:\n", "    # leading comment\n    if n > 0:  # trailing\n").replace("            n = n - 1\n", "            n = n - 1\n# col-0 comment\n        # deeper comment\n"),
-        "bracket_breaks": b.replace("def f(n: int) -> int:", "def f(\n        n: int\n) -> int:").replace("List[int]", "List[\n  int\n    ]").replace('join(sep, ["a", "b"], {"k": f"{sep}!"})', 'join(sep,\n ["a",\n"b"\n  ], {"k":\n f"{sep}!"\n}\n)'),
+        "bracket_breaks": br,
+        "crlf_bracket_breaks": br.replace("\n", "\r\n"),
+        "bracket_comments": br.replace("join(sep,\n", "join(sep,  # the separator\n").replace('["a",\n', '["a",  # first\n      # a whole comment line inside the list\n').replace("def f(\n", "def f(  # params\n"),
+        "unicode_comments": b.replace("        return n\n", "        return n  # n \u2265 1 \u2014 d\u00e9j\u00e0 vu\n").replace("            n = n - 1\n", "            n = n - 1  # \u2193\n"),
         "mixed_tabs": "\n".join((reindent("\t").split("\n")[n_] if n_ % 2 else l) for n_, l in enumerate(b.split("\n"))),
         "final_nonl": b,
         "final_extra_newlines": b + "\n\n   \n",
